@@ -6,6 +6,7 @@ merge result, independently of the flag:  `leq b a`  :=  `merge a b ≈ a`  ("`b
 C03 proves it is the order `partial_cmp` computes.
 -/
 import HvLat.Laws.AllB
+import HvLat.Gen.Tables
 
 namespace HvLat
 
@@ -86,5 +87,18 @@ example :
     let b : List (Nat × List Nat) := [(1, [2, 3]), (5, [])]
     ((lat t).merge a b).2 = true ∧ ((lat t).merge ((lat t).merge a b).1 b).2 = false := by
   exact ⟨rfl, rfl⟩
+
+
+/-! ### tie to the source: the tables regenerated from lattices/src on every run (`Gen/Tables.lean`,
+written by lean/HvLat/translate_tables.py) are the functions of the model -/
+
+/-- the `changed` flags of the regenerated `WithBot` / `WithTop` merge tables are the model's flags -/
+theorem gen_with_merge_flag (L : Lat β) (s o : Option β) :
+    ((Lat.withBot L).merge s o).2 = (Gen.withBotMerge L s o).2 ∧
+    ((Lat.withTop L).merge s o).2 = (Gen.withTopMerge L s o).2 := by
+  constructor
+  · cases s <;> cases o <;> simp only [Lat.withBot, Gen.withBotMerge] <;> try rfl
+    all_goals (split <;> rfl)
+  · cases s <;> cases o <;> rfl
 
 end HvLat
